@@ -93,14 +93,15 @@ def build_binary(cfg, kind):
         elif kind == "msan":
             cmd = ["clang", "-O1", "-g", "-fsanitize=memory", "-fno-omit-frame-pointer"] + flags + srcs + [f"{HARNESS}/harness.c", f"{HARNESS}/wrapmalloc.c", "-Wl,--wrap=malloc", "-o", tmp]
         elif kind == "tsan":
-            cmd = ["gcc", "-O1", "-g", "-fsanitize=thread"] + flags + srcs + [f"{HARNESS}/threads.c", "-lpthread", "-o", tmp]
+            # gcc, not clang: clang-14's TSan missed a seeded race on a static buffer (DESIGN.md App. A)
+            cmd = ["gcc", "-O1", "-g", "-fsanitize=thread"] + flags + [f"-I{HARNESS}"] + srcs + [f"{HARNESS}/threads.c", "-lpthread", "-o", tmp]
         elif kind == "seg":
-            # library as a shared object + segment-immutability harness
+            # library as a shared object (-z relro -z now) + the same harness with the segment check
             so = os.path.join(d, f"librds_{cfg}.so")
             r = run(["gcc", "-O1", "-g", "-fPIC", "-shared", "-Wl,-z,relro,-z,now"] + flags + srcs + ["-o", so])
             if r.returncode != 0:
                 raise BuildError("shared library build failed:\n" + r.stderr[-3000:])
-            cmd = ["gcc", "-O1", "-g"] + flags + [f"{HARNESS}/segcheck.c", so, "-ldl", f"-Wl,-rpath,{d}", "-o", tmp]
+            cmd = ["gcc", "-O1", "-g", "-DSEGCHECK", "-D_GNU_SOURCE", f"-I{HARNESS}"] + flags + [f"{HARNESS}/harness.c", so, "-ldl", f"-Wl,-rpath,{d}", "-o", tmp]
         else:
             raise ValueError(kind)
         r = run(cmd)
